@@ -8,6 +8,7 @@ objects by the harness); the notions a reader has to agree with are in `Spec/PyS
 helper lemmas in `Lemmas/Template.lean`.
 -/
 import PybtexModel.Lemmas.Template
+import PybtexModel.Lemmas.TemplateProt
 import PybtexModel.Props.C05
 import PybtexModel.Lemmas.UniCase
 
@@ -63,7 +64,12 @@ open C07Ex
 /-- **Complete.** When `format_bibliography` succeeds, the formatted entries are — up to order —
 exactly the database entries denoted by the resolved citations (C05's `add_extra_citations`
 without the keys that have no entry): one formatted entry per resolved citation, no resolved
-citation without its entry, and the keys agree up to letter case. -/
+citation without its entry, and the keys agree up to letter case.
+NOTE (audit): `resolvedKeys` / `resolvedEntries` (Spec/PyStyle.lean) are verbatim the first three
+`let`s of the model's `formatBibliography` — the model's own C05 resolution, characterised by the C05
+theorems, not an independent notion.  What is established here is that sort, label and template
+neither drop nor duplicate an entry of that list; only conjunct 2 (every resolved key denotes its
+stored entry) is an independent fact about the prefix. -/
 theorem C07_one_per_citation (es : List PEntry) (items : Str → Option Item) (cites : List Str) (mc : Int)
     (sorting : Sorting) (labels : Labels) (rep : List Report) (fs : List Formatted)
     (h : formatBibliography es items cites mc sorting labels = (rep, .ok fs)) :
@@ -139,7 +145,9 @@ theorem C07_key_order :
 
 /-- **Order, sorting style `author_year_title`.** The formatted entries are the resolved entries
 rearranged (a permutation) so that no entry has a smaller key triple than an earlier one
-(sorted), and entries with the same key triple keep their citation order (stable). -/
+(sorted), and entries with the same key triple keep their citation order (stable).
+Relative to the C05 resolution (see `C07_one_per_citation`); the key triple is the model's
+`sortingKey`, a transliteration of `sorting_key` with no independent specification. -/
 theorem C07_order_ayt (es : List PEntry) (items : Str → Option Item) (cites : List Str) (mc : Int)
     (labels : Labels) (rep : List Report) (fs : List Formatted)
     (h : formatBibliography es items cites mc .authorYearTitle labels = (rep, .ok fs)) :
@@ -371,6 +379,77 @@ theorem C07_missing_required_nonvacuous :
     requiredNodes tmpl = [.names (s "author"), .field (s "title"), .field (s "journal")] := by
   decide +kernel
 
+/-- **Missing required field, pipeline — the converse** of `C07_missing_required`, under an explicit
+fuel hypothesis (`evalFuel = 1000` suffices for the failing entry's template: the evaluation does
+not run out of fuel; not proved in general, checked on every case).  If labels can be formed, the
+entries in formatting order are `pre ++ e :: post`, every entry of `pre` is formatted without
+error, and `Missing` holds for `e`'s template and the field `f` (left to right, the first node that
+fails is a `field`/`names` node named `f` outside every failing `optional` whose lookup finds
+nothing), then `format_bibliography` fails with `FieldIsMissing: missing f in e.key`. -/
+theorem C07_missing_required_conv (es : List PEntry) (items : Str → Option Item) (cites : List Str) (mc : Int)
+    (sorting : Sorting) (labels : Labels) (ls : List Str) (pre post : List PEntry) (e : PEntry) (it : Item) (f : Str)
+    (hls : formatLabels labels (sortEntries sorting (resolvedEntries es cites mc)) = some ls)
+    (hsort : sortEntries sorting (resolvedEntries es cites mc) = pre ++ e :: post)
+    (hpre : ∀ p ∈ pre, ∃ it r, items p.key = some it ∧ eval evalFuel (ctxOf es p it) it.template = .ok r)
+    (hi : items e.key = some it)
+    (hmiss : Missing (ctxOf es e it) (.node it.template) f)
+    (hfuel : eval evalFuel (ctxOf es e it) it.template ≠ .error .outOfFuel) :
+    (formatBibliography es items cites mc sorting labels).2 = .error (.missingField f e.key) := by
+  obtain ⟨fuel, hf⟩ := (C07_missing_iff _ _ _).2 hmiss
+  have he : eval evalFuel (ctxOf es e it) it.template = .error (.missing f) := by
+    rw [eval_fuel_agree hfuel (by rw [hf]; intro h; cases h), hf]
+  have hlen := formatLabels_length hls
+  rw [hsort] at hlen
+  rw [formatBibliography_eq, hls, hsort]
+  simp only
+  have hsplit : ls = ls.take pre.length ++ (ls.drop pre.length) := (List.take_append_drop _ _).symm
+  have hdrop : ∃ l rest, ls.drop pre.length = l :: rest := by
+    cases hd : ls.drop pre.length with
+    | nil =>
+      have := congrArg List.length hd
+      simp only [List.length_drop, List.length_nil, List.length_append, List.length_cons] at this hlen
+      omega
+    | cons l rest => exact ⟨l, rest, rfl⟩
+  obtain ⟨l, rest, hd⟩ := hdrop
+  have htl : (ls.take pre.length).length = pre.length := by
+    simp only [List.length_take, List.length_append, List.length_cons] at hlen ⊢
+    omega
+  rw [hsplit, hd, List.zip_append htl, List.zip_cons_cons]
+  refine formatEntries_missing_conv (mkDb es) items l e (rest.zip post) it f hi he _ ?_
+  intro p hp
+  have hp2 : p.2 ∈ pre := (List.of_mem_zip hp).2
+  exact hpre p.2 hp2
+
+namespace C07Ex
+/-- an article without `journal` (required by the third sentence of `tmpl`) -/
+def nj : PEntry :=
+  { key := s "nj", type := s "article", fields := CIDict.ofPairs [(s "title", s "T")],
+    persons := CIDict.ofPairs [(s "author", [{ last := [s "Zed"] }])] }
+def esNj : List PEntry := [art "b" "Zed" "1999" "T", nj]
+end C07Ex
+
+theorem C07_missing_required_conv_nonvacuous :
+    -- the database of `C07_missing_required_nonvacuous`: `b` is formatted, `nj` has no journal
+    (sortEntries .none (resolvedEntries esNj [s "b", s "nj"] 2)).map (·.key) = [s "b", s "nj"] ∧
+    (formatLabels .number (sortEntries .none (resolvedEntries esNj [s "b", s "nj"] 2))) = some [s "1", s "2"] ∧
+    (eval evalFuel (ctxOf esNj (art "b" "Zed" "1999" "T") (item "Zed")) tmpl).toOption.map toStr
+      = some (s "Zed.<newblock>T.<newblock>J, 1999.") ∧
+    -- the failing entry: `Missing` holds (through `C07_missing_iff`) and the fuel suffices
+    Missing (ctxOf esNj nj (item "Zed")) (.node tmpl) (s "journal") ∧
+    eval evalFuel (ctxOf esNj nj (item "Zed")) tmpl ≠ .error .outOfFuel ∧
+    view (formatBibliography esNj (fun _ => some (item "Zed")) [s "b", s "nj"] 2 .none .number)
+      = .inl (.missingField (s "journal") (s "nj")) := by
+  have hev : ∀ (x : Except TErr RT) (e : TErr), (match x with | .error e => some e | .ok _ => none) = some e →
+      x = .error e := by
+    intro x e h
+    cases x with
+    | error e' => simp only [Option.some.injEq] at h; rw [h]
+    | ok _ => cases h
+  have h := hev (eval evalFuel (ctxOf esNj nj (item "Zed")) tmpl) (.missing (s "journal")) (by decide +kernel)
+  refine ⟨by decide +kernel, by decide +kernel, by decide +kernel, ?_, ?_, by decide +kernel⟩
+  · exact (C07_missing_iff _ _ _).1 ⟨evalFuel, h⟩
+  · rw [h]; intro h2; cases h2
+
 /-! ### sentence terminators, protected case -/
 
 /-- **Terminated.** If a template satisfies the syntactic condition `endsInSentence` (a
@@ -459,6 +538,63 @@ theorem C07_protected_case_nonvacuous :
         (.sentence true false true (.str (s ", ")) [.field (s "title") .lower false])).toOption.map toStr
       = some (s "On TeX things.") ∧
     protAtoms (flatLatex 0 (s "on {TeX} THINGS")) = [(.ch 'T', [.prot]), (.ch 'e', [.prot]), (.ch 'X', [.prot])] := by
+  decide +kernel
+
+/-- **Protected case, whole entry.**  `C07_protected_case` is per operation; this is the statement
+for a whole template / formatted entry, by induction over ALL templates (same traversal `printed` as
+`C07_field_coverage`).  `protChars s` (Spec/PyStyleProt.lean) = the characters of `s` that stand under a
+`Protected`, in order, each exactly as it is (same case), without the markup stack (a `tag` / `href`
+around a field adds markup, which changes the stack of a protected character but neither the
+character nor its being protected); `ProtCovers a b` = `protChars a` is a contiguous run of
+`protChars b`.
+(1) When a template evaluates to `r`, every printed `field` occurrence has a value whose protected
+characters occur, character for character and still protected, among the protected characters of
+`r` — whatever `sentence` (capfirst / capitalize / add_period), `join`, `words`/`together`, `tag`,
+`href`, `optional`, `first_of`, `names` / `name_part` nodes stand above it.
+(2) For a non-raw occurrence the protected atoms of the value are exactly those of the brace
+structure of the field's value as the codec decodes it (`flatLatex`), whatever the `apply_func`.
+(3) Pipeline: for every formatted entry and every printed non-raw field occurrence of its template,
+the brace-protected characters of the (decoded) field value occur, same case and still protected, as
+a contiguous run of the protected characters of the entry's text.
+NOT stated: where in the text the run stands (that is `C07_field_coverage`, up to case), and
+nothing about abbreviated name parts or `href` URLs (not in `printed`). -/
+theorem C07_protected_case_pipeline :
+    (∀ fuel ctx t r, eval fuel ctx t = .ok r → ∀ o ∈ printed fuel ctx t,
+      ∃ val, fieldValue ctx o = some val ∧ ProtCovers (sem [] val) (sem [] r)) ∧
+    (∀ ctx o val, fieldValue ctx o = some val → o.raw = false →
+      ∃ v, ctx.entry.findField o.name ctx.db = some v ∧
+        protAtoms (sem [] val) = protAtoms (flatLatex 0 (decodeOf ctx.decode v))) ∧
+    (∀ es items cites mc sorting labels rep fs,
+      formatBibliography es items cites mc sorting labels = (rep, .ok fs) →
+      ∀ f ∈ fs, ∃ e ∈ resolvedEntries es cites mc, ∃ it, items e.key = some it ∧ f.key = e.key ∧
+        ∀ o ∈ printed evalFuel (ctxOf es e it) it.template, o.raw = false →
+          ∃ v, (ctxOf es e it).entry.findField o.name (ctxOf es e it).db = some v ∧
+            ProtCovers (flatLatex 0 (decodeOf (ctxOf es e it).decode v)) (sem [] f.text)) := by
+  refine ⟨fun fuel ctx t r h o ho => (eval_protCoverage ctx fuel).1 t r h o ho,
+    fun ctx o val h hr => fieldValue_protAtoms h hr, ?_⟩
+  intro es items cites mc sorting labels rep fs h f hf
+  obtain ⟨e, hm, it, hi, hk, he⟩ := formatBibliography_ok_mem h f hf
+  refine ⟨e, hm, it, hi, hk, ?_⟩
+  intro o ho hr
+  obtain ⟨val, hv, hc⟩ := (eval_protCoverage _ _).1 _ _ he o ho
+  obtain ⟨v, hfv, hp⟩ := fieldValue_protAtoms hv hr
+  refine ⟨v, hfv, ?_⟩
+  unfold ProtCovers protChars at hc ⊢
+  rw [← hp]; exact hc
+
+theorem C07_protected_case_pipeline_nonvacuous :
+    -- a lower-casing title field inside a tag inside a capfirst sentence: `{TeX}` and `{B}` survive
+    (printed 10 (ctxOf [art "b" "Zed" "1999" "on {TeX} THINGS and {B}ig"] (art "b" "Zed" "1999" "on {TeX} THINGS and {B}ig") (item "Zed"))
+        (.sentence true false true (.str (s ", ")) [.tag (s "em") [.field (s "title") .lower false]])).map
+        (fun o => (o.name, o.raw)) = [(s "title", false)] ∧
+    (eval 10 (ctxOf [art "b" "Zed" "1999" "on {TeX} THINGS and {B}ig"] (art "b" "Zed" "1999" "on {TeX} THINGS and {B}ig") (item "Zed"))
+        (.sentence true false true (.str (s ", ")) [.tag (s "em") [.field (s "title") .lower false]])).toOption.map
+        (fun r => (toStr r, protChars (sem [] r)))
+      = some (s "On TeX things and Big.", [.ch 'T', .ch 'e', .ch 'X', .ch 'B']) ∧
+    protChars (flatLatex 0 (s "on {TeX} THINGS and {B}ig")) = [.ch 'T', .ch 'e', .ch 'X', .ch 'B'] ∧
+    -- whole pipeline: entry `A` of the example database, title `On {TeX} things`
+    (match (formatBibliography entries items [s "A"] 2 .none .number).2 with
+      | .ok fs => fs.map (fun f : Formatted => protChars (sem [] f.text)) | .error _ => []) = [[.ch 'T', .ch 'e', .ch 'X']] := by
   decide +kernel
 
 /-! ### field coverage -/
